@@ -50,7 +50,7 @@ def _pipeline_nontrivial(sc, res):
 
 
 def ops_key(sc):
-    return 'ops'
+    return 'trials' if sc['engine'] == 'framing' else 'ops'
 
 
 def batch_size(prop):
